@@ -624,8 +624,9 @@ func c33Run(t *testing.T, r *kit.Run, c c33Case, loads [][]byte, base string) (o
 			// the snapshot exists does not depend on goroutine timing: the snapshot gate being
 			// held, and raft's "wait until the configuration entry ... has been applied" (its
 			// FSM goroutine has not yet passed the membership entry of a join/remove).
-			for deadline := time.Now().Add(60 * time.Second); err != nil && time.Now().Before(deadline) &&
-				(strings.Contains(err.Error(), "CAS conflict") || strings.Contains(err.Error(), "wait until the configuration entry")); {
+			start := time.Now()
+			for err != nil && ((strings.Contains(err.Error(), "CAS conflict") && time.Since(start) < 60*time.Second) ||
+				(strings.Contains(err.Error(), "wait until the configuration entry") && time.Since(start) < 5*time.Second)) {
 				time.Sleep(10 * time.Millisecond)
 				err = s.Snapshot(0)
 			}
